@@ -5,7 +5,7 @@ import pyref
 FAMILY = "hll"
 CORR = "Hll"
 FAMNUM = 6
-ORACLES = {"prop_ok": 0, "union_ok": 1, "twin_ok": 2, "layout_ok": 3, "foreign_ok": 4, "no_panic": 5}
+ORACLES = {"prop_ok": 0, "union_ok": 1, "twin_ok": 2, "layout_ok": 3, "foreign_ok": 4, "no_panic": 5, "accepted_ok": 6}
 GEN_MODULES = [("GenHll",
                 ["hll/mod.rs", "hll/serialization.rs", "hll/container.rs", "hll/list.rs", "hll/hash_set.rs",
                  "hll/aux_map.rs", "hll/array4.rs", "hll/array6.rs", "hll/coupon_mapping.rs", "hll/estimator.rs", "hll/sketch.rs"],
@@ -24,7 +24,8 @@ OPNAMES = {1: "update", 2: "coupon", 3: "dump", 4: "estimate", 5: "bounds", 6: "
            8: "roundtrip", 9: "deserialize",
            10: "u.new", 11: "u.coupon", 12: "u.update", 13: "u.mark_ooo", 14: "union.update", 15: "union.update_value",
            16: "union.reset", 17: "u.dump", 18: "union.to_sketch", 19: "union.to_sketch.estimate", 20: "union.info",
-           21: "union.estimate"}
+           21: "union.estimate", 22: "union.to_sketch.roundtrip",
+           30: "merge_into_union", 31: "reserialize", 32: "estimate+bounds"}
 
 
 M26 = (1 << 26) - 1
@@ -357,6 +358,9 @@ def gen_union_case(rng, cid, tier):
             ops.append((19, [t]))
         ops.append((21, []))
         ops.append((20, []))
+        # the union's result through serialize / deserialize / serialize (C11): all types when small
+        for t in ((0, 1, 2) if (full and not big) else (rng.randrange(3),)):
+            ops.append((22, [t]))
 
     def feed(order, dups):
         for i in order:
@@ -428,6 +432,12 @@ def gen_codec_case(rng, cid, tier, focus):
                     ops.append((5, [g, t]))
             for t in types:
                 ops.append((7, [g, t]))
+            for t in types:
+                ops.append((31, [g, t]))
+            if not big or rng.random() < 0.3:
+                for t in types:
+                    ops.append((30, [g, t]))
+            ops.append((32, [g, rng.randrange(3)]))
 
     look()
     seen = set()
@@ -638,25 +648,41 @@ def foreign_image(rng, tier):
             "hll%d-%s%s" % ([4, 6, 8][typ], "compact" if compact else "updatable", "-ooo" if ooo else ""))
 
 
-def exercise(rng, ops, g, t, lgk_hint):
-    """what is done with a value returned as Ok: query, re-serialize, update, round trip"""
-    ops.append((4, [g, t])); ops.append((5, [g, t])); ops.append((7, [g, t]))
+def image_is_ooo(img):
+    """array-mode image with the OUT_OF_ORDER flag: its estimate is the composite estimator (not modelled)"""
+    return len(img) >= 8 and (img[7] & 3) == 2 and (img[5] & 16) != 0
+
+
+def exercise(rng, ops, g, t, maybe_ooo):
+    """what is done with a value returned as Ok: query (estimate and bounds -- compared with the model unless the
+    sketch may be out of order, where only the crate-only op 32 is used), re-serialize, merge into a union, update,
+    round trip.  maybe_ooo: this image or an earlier one loaded into the same slot (a rejected image leaves the
+    previous sketch in place) carries the OUT_OF_ORDER flag"""
+    def query():
+        if not maybe_ooo:
+            ops.append((4, [g, t])); ops.append((5, [g, t]))
+        ops.append((32, [g, t]))
+    query()
+    ops.append((7, [g, t])); ops.append((31, [g, t])); ops.append((30, [g, t]))
     for _ in range(rng.choice([0, 3, 40])):
         ops.append((2, [g, cp(rng.getrandbits(26), rand_value(rng))]))
-    ops.append((3, [g, t])); ops.append((8, [g, t])); ops.append((3, [g, t])); ops.append((4, [g, t]))
+    ops.append((3, [g, t])); query(); ops.append((30, [g, t]))
+    ops.append((8, [g, t])); ops.append((3, [g, t])); query(); ops.append((31, [g, t]))
 
 
 def gen_foreign_case(rng, cid, tier):
     ops = []
     tags = set()
+    ooo = {}
     for _ in range(rng.choice([1, 2, 3])):
         img, v = foreign_image(rng, tier)
         tags.add(v)
         g, t = rng.randrange(2), rng.randrange(3)
+        ooo[(g, t)] = ooo.get((g, t), False) or image_is_ooo(img)
         ops.append((9, [g, t] + img))
         ops.append((3, [g, t]))
         if "upd4aux" not in v:
-            exercise(rng, ops, g, t, img[3])
+            exercise(rng, ops, g, t, ooo[(g, t)])
     tag = "hllforeign-upd4aux" if "upd4aux" in tags else "hllforeign-" + "+".join(sorted(tags))
     return Case(cid, [rng.randint(4, 12)], ops, tag=tag)
 
@@ -690,18 +716,108 @@ def mutate(rng, img):
     return b
 
 
+BAD_F64 = [float("nan"), float("inf"), float("-inf"), -1.0, -0.0, 0.0, 5e-324, 1e-300, 1e300, 1.7976931348623157e308]
+
+
+def crafted_estimator_image(rng):
+    """a valid array image (any type, flags 0x18 / 0x08 / 0x10 / 0) whose hip_accum / kxq0 / kxq1 fields hold NaN, an
+    infinity, a negative number, zero, a subnormal or a huge value: accepted or rejected, estimate() and the bounds
+    of an accepted one must not panic (the NaN kxq0 with OUT_OF_ORDER once failed a debug assertion)"""
+    typ = rng.randrange(3)
+    lgk = rng.choice([4, 4, 5, 7, 10])
+    regs = rand_regs(rng, lgk, typ)
+    ooo = rng.random() < 0.7
+    compact = rng.random() < 0.7
+    if typ == 0 and any(v - min(regs) >= 15 for v in regs):
+        compact = True          # the updatable Hll4 exception table is the known finding C13-hll-updatable-hll4-aux
+    q0, q1 = kxq_of(regs)
+    hip = 0.0 if ooo else 123.5
+    which = rng.choice(["q0", "q0", "q1", "hip", "q0q1", "all"])
+    bad = rng.choice(BAD_F64)
+    if which in ("q0", "q0q1", "all"):
+        q0 = bad
+    if which in ("q1", "q0q1", "all"):
+        q1 = rng.choice(BAD_F64) if which == "all" else bad
+    if which in ("hip", "all"):
+        hip = rng.choice(BAD_F64)
+    img = enc_hll(compact, ooo, lgk, typ, regs, hip, q0, q1, lg_arr_byte=rng.choice([None, 0]))
+    if rng.random() < 0.3:          # a NaN with a payload / the sign bit
+        off = {"q0": 16, "q1": 24, "hip": 8}.get(which, 16)
+        img[off:off + 8] = le(8, rng.choice([0x7ff0000000000001, 0xfff8000000000000, 0x7fffffffffffffff, 0xfff0000000000000]))
+    return img
+
+
+def crafted_coupon_image(rng):
+    """list / set images whose stored coupons disagree with the announced count, repeat, or carry value 0"""
+    typ = rng.randrange(3)
+    lgk = rng.choice([4, 8, 10, 12, 21])
+    kind = rng.choice(["list-full", "list-more", "list-fewer", "list-dup", "list-zero-value", "list-compact-hole",
+                       "set-count", "set-dup", "set-zero-value"])
+    if kind.startswith("set") and lgk < 8:
+        lgk = 10
+    fresh = lambda n: list({cp(rng.getrandbits(26), rand_value(rng)) for _ in range(4 * n)})[:n]
+    if kind == "list-full":          # count 3, all 8 slots occupied: every later update used to be dropped
+        cs = fresh(8)
+        return [2, 1, 7, lgk, 3, 0, rng.choice([3, 0, 7]), typ << 2] + u32l(cs)
+    if kind == "list-more":
+        n = rng.randint(0, 6)
+        cs = fresh(rng.randint(n + 1, 8)) + [0] * 8
+        return [2, 1, 7, lgk, 3, 0, n, typ << 2] + u32l(cs[:8])
+    if kind == "list-fewer":
+        n = rng.randint(1, 7)
+        cs = fresh(rng.randint(0, n - 1)) + [0] * 8
+        return [2, 1, 7, lgk, 3, 0, n, typ << 2] + u32l(cs[:8])
+    if kind == "list-dup":
+        cs = fresh(rng.randint(1, 6))
+        cs = cs + [cs[0]]
+        compact = rng.random() < 0.5
+        return [2, 1, 7, lgk, 3, 8 if compact else 0, len(cs), typ << 2] + u32l(cs if compact else (cs + [0] * 8)[:8])
+    if kind == "list-zero-value":
+        cs = fresh(rng.randint(0, 5)) + [rng.getrandbits(26) | 1]
+        compact = rng.random() < 0.5
+        return [2, 1, 7, lgk, 3, 8 if compact else 0, len(cs), typ << 2] + u32l(cs if compact else (cs + [0] * 8)[:8])
+    if kind == "list-compact-hole":
+        cs = fresh(3)
+        cs[1] = 0
+        return [2, 1, 7, lgk, 3, 8, 3, typ << 2] + u32l(cs)
+    lg_arr = rng.randint(5, min(lgk - 3, 7))
+    n = rng.randint(8, 3 * (1 << lg_arr) // 4)
+    cs = fresh(n)
+    compact = rng.random() < 0.5
+    count = len(cs)
+    if kind == "set-count":
+        count = max(0, count + rng.choice([-1, 1, -8, 3]))
+    elif kind == "set-dup":
+        cs[-1] = cs[0]
+    else:
+        cs[rng.randrange(len(cs))] = rng.getrandbits(26) | 1
+    body = list(cs) if compact else java_set_table(lg_arr, cs)
+    if compact and kind == "set-count":
+        pass
+    return [3, 1, 7, lgk, lg_arr, 8 if compact else 0, 0, 1 | (typ << 2)] + le(4, count) + u32l(body)
+
+
 def gen_malformed_case(rng, cid, tier):
     ops = []
+    tags = set()
+    ooo = {}
     for _ in range(rng.choice([2, 3, 5])):
-        img, v = foreign_image(rng, tier)
-        if len(img) > 3000 and rng.random() < 0.7:
-            continue
-        img = mutate(rng, img)
+        r = rng.random()
+        if r < 0.2:
+            img = crafted_estimator_image(rng); tags.add("est")
+        elif r < 0.35:
+            img = crafted_coupon_image(rng); tags.add("cpn")
+        else:
+            img, v = foreign_image(rng, tier)
+            if len(img) > 3000 and rng.random() < 0.7:
+                continue
+            img = mutate(rng, img)
         g, t = rng.randrange(2), rng.randrange(3)
+        ooo[(g, t)] = ooo.get((g, t), False) or image_is_ooo(img)
         ops.append((9, [g, t] + img))
         ops.append((3, [g, t]))
-        exercise(rng, ops, g, t, 0)
-    return Case(cid, [rng.randint(4, 12)], ops, tag="hllmalformed")
+        exercise(rng, ops, g, t, ooo[(g, t)])
+    return Case(cid, [rng.randint(4, 12)], ops, tag="hllmalformed" + "".join("-" + x for x in sorted(tags)))
 
 
 def gen_extremes_case(rng, cid, tier):
@@ -714,7 +830,8 @@ def gen_extremes_case(rng, cid, tier):
         kind = rng.choice(STREAMS + [stream_cur_min, stream_aux_boundary])
         kind(rng, b, 0, lgk, tier)
         for t in (0, 1, 2):
-            b.ops.append((7, [0, t])); b.ops.append((8, [0, t]))
+            b.ops.append((7, [0, t])); b.ops.append((31, [0, t])); b.ops.append((30, [0, t])); b.ops.append((32, [0, t]))
+            b.ops.append((8, [0, t]))
         b.check(0, rng)
         return Case(cid, [lgk], b.ops, tag="hllextreme-%s-lgk4" % kind.__name__[7:])
     if r < 0.75:
@@ -731,7 +848,8 @@ def gen_extremes_case(rng, cid, tier):
                 b.check(0, rng)
         b.check(0, rng)
         for t in (0, 1, 2):
-            b.ops.append((7, [0, t])); b.ops.append((8, [0, t]))
+            b.ops.append((7, [0, t])); b.ops.append((31, [0, t])); b.ops.append((32, [0, t])); b.ops.append((8, [0, t]))
+        b.ops.append((30, [0, rng.randrange(3)]))
         b.check(0, rng)
         return Case(cid, [lgk], b.ops, tag="hllextreme-sparse-lgk21")
     # unions at lg_max 4 / 21 with inputs at lg_k 4, 21 and in between (array inputs only below lg_k 10)
@@ -759,6 +877,7 @@ def gen_extremes_case(rng, cid, tier):
             for t in (0, 1, 2):
                 ops.append((18, [t])); ops.append((19, [t]))
             ops.append((20, [])); ops.append((21, []))
+            ops.append((22, [rng.randrange(3)]))
         item = rng.getrandbits(40)
         ops.append((15, [item, coupon_of_item(item)]))
         ops.append((16, []))
